@@ -116,7 +116,9 @@ def perform (s : State) (t : Trans) : State × List Output :=
 def dispatchRow (c : Comm) : Option (Bool × Bool × Bool × Bool) :=
   (Gen.Callbacks.dispatch.find? (fun r => r.1 == c.name)).map (·.2)
 
-/-- `GemHandler._on_message_received` (reached through the protocol gate: link selected, nobody waits for these system bytes) -/
+/-- `GemHandler._on_message_received` (reached through the protocol gate: link selected; for an even function such as S1F14
+additionally: no caller blocked in `send_and_waitfor_response` waits for these system bytes — the S1F13 is sent with
+`send_stream_function`, which opens no such transaction) -/
 def onMessage (cfg : Cfg) (s : State) (sf f : Nat) (w : Bool) (sys : Nat) (commack : Option Nat) : State × List Output :=
   match dispatchRow s.comm with
   | none => (s, [])
